@@ -26,14 +26,15 @@ type Spec struct {
 	Items  *Spec
 	Props  []*Prop
 	// ReqNoProp: a name listed in required without a property of that name
-	ReqNoProp bool
-	Default   string // "", "scalar", "slice", "emptyslice", "map"
-	Enum      string // "", "strings", "ints", "numbers", "bools", "mixed", "null"
-	Ref       string // "", "$defs", "definitions": this node lives in a definition and is referenced
-	Desc      bool
-	Title     bool
-	AddProps  string // "", "true", "string", "integer", "number", "boolean", "array", "object", "false"
-	AnyOf     []*Spec
+	ReqNoProp     bool
+	Default       string // "", "scalar", "slice", "emptyslice", "map"
+	Enum          string // "", "strings", "ints", "numbers", "bools", "mixed", "null"
+	Ref           string // "", "$defs", "definitions": this node lives in a definition and is referenced
+	Desc          bool
+	Title         bool
+	AddProps      string // "", "true", "string", "integer", "number", "boolean", "array", "object", "false"
+	AnyOf         []*Spec
+	ConcreteTitle string // with Title: a concrete title
 	// filled by Build
 	Atoms   map[string]*absint.Atom
 	DefName *absint.Atom
@@ -48,6 +49,7 @@ type Prop struct {
 	Name     *absint.Atom // raw name atom (filled by Build)
 	ExtIdent bool         // goJSONSchema.identifier override with a symbolic identifier
 	ExtAtom  *absint.Atom
+	Concrete string // when set, the property name is this concrete text (the real identifier synthesiser runs)
 }
 
 func (s *Spec) Has(kw string) bool {
@@ -202,7 +204,7 @@ func (b *builder) build(s *Spec, label string) gen.V {
 	if s.Desc {
 		f["Description"] = absint.HoleStr(b.atom(s, "RawStr", "description", true))
 	}
-	if s.Title {
+	if s.Title && s.ConcreteTitle == "" {
 		f["Title"] = absint.HoleStr(b.atom(s, "RawStr", "title", true))
 	}
 	for _, kw := range s.Kw {
@@ -254,6 +256,9 @@ func (b *builder) build(s *Spec, label string) gen.V {
 			p.Name = g.M.NewAtom("RawStr", "name of property "+p.Label)
 			p.Name.NonEmpty = true
 			name := absint.HoleStr(p.Name)
+			if p.Concrete != "" {
+				name = absint.Lit(p.Concrete)
+			}
 			keys = append(keys, name)
 			node := b.build(p.Spec, label+p.Label)
 			if p.ExtIdent {
@@ -368,5 +373,9 @@ func Build(g *gen.G, root *Spec) gen.V {
 	if len(b.defKeys) > 0 {
 		defs = g.Map(b.defKeys, b.defVals)
 	}
-	return g.Schema(rootNode, absint.Str{}, absint.Str{}, defs)
+	title := absint.Str{}
+	if root.Title && root.ConcreteTitle != "" {
+		title = absint.Lit(root.ConcreteTitle)
+	}
+	return g.Schema(rootNode, absint.Str{}, title, defs)
 }
